@@ -661,7 +661,11 @@ func (c *specCtx) pureValue(key string, args []*Term) Value {
 		if len(fc.Results) == 1 && fc.Results[0] != "_" {
 			names[fc.Results[0]] = v
 		}
-		sub := &specCtx{e: c.e, names: names, bound: map[string]*Term{}, pkg: c.pkg, inPure: true}
+		subPkg := c.pkg
+		if dp, ok := c.e.w.Pkgs[fc.DeclPkg]; ok {
+			subPkg = dp // the clauses of a pure contract may name variables of the package that declares it
+		}
+		sub := &specCtx{e: c.e, names: names, bound: map[string]*Term{}, pkg: subPkg, inPure: true}
 		for _, cl := range fc.Clauses {
 			if cl.Kind == "ensures" {
 				c.e.assume(sub.boolTerm(cl.Expr))
